@@ -361,7 +361,12 @@ def determined_network(draw, noise=1, dims=None, free=False, allow_cov=True, all
         cov = None
         if allow_cov and len(obs) >= 2 and draw(st.integers(0, 3)) == 0:
             cov = draw(cov_for([o["sd"] for o in obs]))
-        clusters.append({"k": "obs", "from": sid, "from_dh": None, "orient": draw(st.integers(0, 3999999)) / 1e4,
+        # instrument height given for the whole cluster (inherited by its slope distances and zenith angles
+        # that have none of their own; it must not leak into other clusters)
+        cl_dh = None
+        if has_z and any(o["t"] in ("z-angle", "s-distance") for o in obs) and draw(st.integers(0, 2)) == 0:
+            cl_dh = draw(st.integers(1000, 1900)) / 1000.0
+        clusters.append({"k": "obs", "from": sid, "from_dh": cl_dh, "orient": draw(st.integers(0, 3999999)) / 1e4,
                          "obs": obs, "cov": cov})
     if B.hd:
         cov = None
